@@ -160,7 +160,7 @@ OPTS = st.fixed_dictionaries({"quoted": st.booleans(), "platform_aware": st.samp
 def _pairs(draw, tier):
     kind = draw(st.sampled_from(["spelling-dirty", "spelling-norm", "irrelevant-clean", "irrelevant-norm", "irrelevant-platform"]))
     if kind == "spelling-dirty":
-        s = draw(G.url_structs(max_segments=3, max_items=3))
+        s = draw(G.url_structs(max_segments=3, max_items=3, host_kw={"ip": True, "rootdot": True}))
         pool, spool = T.SPELLING, T.STRING_LEVEL
     elif kind == "spelling-norm":
         s = draw(N.norm_structs(dirty=True, platform_hosts=True))
@@ -194,7 +194,7 @@ def _pairs(draw, tier):
 
 
 def _singles(tier):
-    s = st.one_of(G.url_structs(max_segments=3, max_items=3), N.norm_structs(dirty=True, platform_hosts=True), N.norm_structs(dirty=False))
+    s = st.one_of(G.url_structs(max_segments=3, max_items=3, host_kw={"ip": True, "rootdot": True}), N.norm_structs(dirty=True, platform_hosts=True), N.norm_structs(dirty=False))
     return st.tuples(s, OPTS).map(lambda v: {"kind": "single", "u": _fix_edges(G.serialise(v[0])), "options": v[1]})
 
 
